@@ -7,6 +7,7 @@ import (
 	"math/rand"
 	"sort"
 
+	ethcrypto "github.com/ethereum/go-ethereum/crypto"
 	"github.com/holiman/uint256"
 	rctypes "github.com/rigochain/rigo-go/ctrlers/types"
 	"github.com/rigochain/rigo-go/libs/web3"
@@ -160,6 +161,74 @@ type Gen struct {
 	// option documents offered by proposals
 	OptMenu []string
 	Progs   func(g *Gen, v *View, from int) *Op // contract tx generator (set by evm package code)
+	// contracts deployed so far by this generator (address, template name)
+	Contracts []deployed
+}
+
+type deployed struct {
+	addr []byte
+	tmpl string
+}
+
+var tmplNames = []string{"counter", "forwarder", "store_log", "reverter", "nested", "touch_and_revert", "suicide", "loop", "invalid", "badjump", "balances", "sink", "context", "creator"}
+
+// contractTx builds a random deployment or call.
+func (g *Gen) contractTx(v *View, from int, nonce uint64, price *uint256.Int, bal *big.Int) (*rctypes.Trx, string) {
+	rng := g.Rng
+	gasMenu := []uint64{21000, 25000, 53000, 60000, 120000, 300000, 900000}
+	gas := gasMenu[rng.Intn(len(gasMenu))]
+	anyAddr := func() []byte {
+		if len(g.Contracts) > 0 && rng.Intn(2) == 0 {
+			return g.Contracts[rng.Intn(len(g.Contracts))].addr
+		}
+		return g.KR.Addr(1 + rng.Intn(g.NAcct+3))
+	}
+	value := big.NewInt(0)
+	switch rng.Intn(4) {
+	case 0:
+		value = big.NewInt(int64(rng.Intn(100000)))
+	case 1:
+		value = new(big.Int).Mul(big.NewInt(int64(1+rng.Intn(5))), E18)
+	}
+	if g.P.Boundary && rng.Intn(4) == 0 {
+		value = g.boundaryAmount(bal)
+	}
+	if len(g.Contracts) == 0 || rng.Intn(4) == 0 {
+		name := tmplNames[rng.Intn(len(tmplNames))]
+		var runtime []byte
+		if name == "creator" {
+			runtime = CreatorRuntime()
+		} else {
+			runtime = Asm(Programs[name], map[string][]byte{"callee": anyAddr(), "fresh": g.KR.Addr(g.NAcct + 1 + rng.Intn(4))})
+		}
+		var a [20]byte
+		copy(a[:], g.KR.Addr(from))
+		addr := ethcrypto.CreateAddress(a, nonce)
+		g.Contracts = append(g.Contracts, deployed{addr[:], name})
+		if gas < 120000 {
+			gas = 300000
+		}
+		if name == "creator" {
+			gas = 900000
+		}
+		return web3.NewTrxContract(g.KR.Addr(from), types.ZeroAddress(), nonce, gas, price, u256(value), Deployer(runtime, int64(rng.Intn(3)))), "contract:deploy:" + name
+	}
+	c := g.Contracts[rng.Intn(len(g.Contracts))]
+	var data []byte
+	switch rng.Intn(4) {
+	case 0:
+	case 1:
+		data = word(anyAddr())
+	case 2:
+		data = append(word([]byte{byte(rng.Intn(256))}), word([]byte{byte(rng.Intn(4))})...)
+	case 3:
+		data = randBytes(rng, rng.Intn(70))
+	}
+	if rng.Intn(6) == 0 {
+		// a plain transfer to a contract address (executed by the EVM as well)
+		return web3.NewTrxTransfer(g.KR.Addr(from), c.addr, nonce, gas, price, u256(value)), "transfer:tocontract:" + c.tmpl
+	}
+	return web3.NewTrxContract(g.KR.Addr(from), c.addr, nonce, gas, price, u256(value), data), "contract:call:" + c.tmpl
 }
 
 func NewGen(seed int64, g *GenesisSpec, naccts int, p Profile) *Gen {
@@ -433,10 +502,11 @@ func (g *Gen) NextTx(v *View) *Op {
 		}
 		tx = web3.NewTrxSetDoc(g.KR.Addr(from), nonce, gas, price, name, url)
 	case "contract":
-		if g.Progs == nil {
-			return nil
+		if g.Progs != nil {
+			return g.Progs(g, v, from)
 		}
-		return g.Progs(g, v, from)
+		tx, tag = g.contractTx(v, from, nonce, price, bal)
+		gas = tx.Gas
 	}
 	_ = zero
 	auth := ""
